@@ -67,6 +67,7 @@ var seqModes = []string{
 	simprom.ModeDialBlackHole, simprom.ModeHTTP503, simprom.ModeReset,
 	simprom.ModeHTTP502, simprom.ModeGarbage, simprom.ModeWrongType,
 	simprom.ModeJSONInternal, simprom.ModeJSONUnavail, simprom.ModeJSONTimeout,
+	simprom.ModeOKBadData,
 }
 
 // the static sweep enumerates all of them
@@ -87,7 +88,7 @@ func class(mode string) int {
 	case simprom.ModeRefused, simprom.ModeDialBlackHole, simprom.ModeStall, simprom.ModeReset,
 		simprom.ModeHTTP500, simprom.ModeHTTP502, simprom.ModeHTTP503, simprom.ModeJSONServerErr:
 		return clsMustFailover
-	case simprom.ModeBadData, simprom.ModeExecution:
+	case simprom.ModeBadData, simprom.ModeExecution, simprom.ModeOKBadData:
 		return clsMustNot
 	default:
 		// 404, truncated / garbage / wrong-type 200 bodies, 5xx carrying
@@ -397,6 +398,8 @@ func errMatchesMode(err error, mode string) bool {
 		return isAPI && string(e.ErrorType) == "bad_data" && e.Err == "injected bad_data: parse error"
 	case simprom.ModeExecution:
 		return isAPI && string(e.ErrorType) == "execution" && e.Err == "injected execution error"
+	case simprom.ModeOKBadData:
+		return isAPI && string(e.ErrorType) == "bad_data" && e.Err == "injected bad_data in a 200 body"
 	case simprom.ModeJSONServerErr:
 		return isAPI && string(e.ErrorType) == "server_error" && e.Err == "injected server_error"
 	case simprom.ModeHTTP500, simprom.ModeHTTP502, simprom.ModeHTTP503:
